@@ -7,7 +7,7 @@
     Specifications: ImportSpec.v ([Resolvable] = every transitive import can be satisfied; [CodeResolvable] =
     what the importer's own traversal demands; the hypotheses [NoErrs], [Shallow], [AcyclicFiles], [NoTwin]). *)
 From Coq Require Import String Ascii List Bool.
-From LC Require Import ImportDefs ImportSpec ImportProofs ImportGuard ImportPost ImportLayout.
+From LC Require Import ImportDefs ImportSpec ImportProofs ImportGuard ImportPost ImportLayout ImportRound5Proofs.
 Import ListNotations.
 Local Open Scope string_scope.
 
@@ -292,3 +292,38 @@ Example C07_nonvacuous :
   exists st', resolve_imports (fuel_bound ex_fs empty_state) true ex_fs empty_state ex_m0 = Ok (true, st').
 Proof. exact ImportProofs.nonvacuous. Qed.
 Print Assumptions C07_nonvacuous.
+
+(** Proof depth round 5.  The answer of resolveImports depends on nothing but the files and the model: not on the
+    strict flag, not on the fuel, not on which library state (any two that cache the file system) the importer is in. *)
+Theorem C07_resolve_answer_independent : forall fs m0 strict1 strict2 st1 st2 fuel1 fuel2,
+  NoErrs fs -> cons fs st1 -> cons fs st2 ->
+  fuel_bound fs st1 <= fuel1 -> fuel_bound fs st2 <= fuel2 ->
+  exists b s1 s2, resolve_imports fuel1 strict1 fs st1 m0 = Ok (b, s1) /\
+                  resolve_imports fuel2 strict2 fs st2 m0 = Ok (b, s2).
+Proof. exact ImportRound5Proofs.resolve_answer_independent. Qed.
+Print Assumptions C07_resolve_answer_independent.
+
+(** After removeAllModels the exact characterisation holds from EVERY importer state: no hypothesis on the library. *)
+Theorem C07_resolve_after_clear_iff_code : forall fs strict st m0 fuel,
+  NoErrs fs -> fuel_bound fs empty_state <= fuel ->
+  exists b st', resolve_imports fuel strict fs (remove_all_models st) m0 = Ok (b, st') /\
+                (b = true <-> CodeResolvable fs m0).
+Proof. exact ImportRound5Proofs.resolve_after_clear_iff_code. Qed.
+Print Assumptions C07_resolve_after_clear_iff_code.
+
+(** The verdict is exact AND reported (2 and 3' composed): satisfiable -> true; not satisfiable -> false, with an
+    issue attached to a top-level importing entity whose fetch failed. *)
+Theorem C07_resolve_verdict_reported_partial : forall fs strict st m0 fuel,
+  NoErrs fs -> Shallow fs -> AcyclicFiles fs -> NoTwin fs m0 -> KeysOK fs ->
+  cons fs st -> fuel_bound fs st <= fuel ->
+  (Resolvable fs m0 -> exists st', resolve_imports fuel strict fs st m0 = Ok (true, st')) /\
+  (~ Resolvable fs m0 ->
+     exists st', resolve_imports fuel strict fs st m0 = Ok (false, st') /\
+       issues_rev st' <> [] /\
+       exists i, In i (issues_rev st') /\
+         ((exists u s1 s2, In u (imported_units m0) /\ i_item i = ItUnits None (uname u) /\
+                           fetch_units fuel strict fs m0 s1 None [] u = Ok (false, s2))
+          \/ (exists c s1 s2, In c (imported_comps m0) /\ i_item i = ItComp None (cname c) /\
+                              fetch_comp fuel strict fs m0 s1 None [] c = Ok (false, s2)))).
+Proof. exact ImportRound5Proofs.resolve_verdict_reported. Qed.
+Print Assumptions C07_resolve_verdict_reported_partial.
